@@ -214,7 +214,7 @@ func runC12(c *Ctx, phase string) {
 	c.Floor("exception_ids_checked", int64(len(u.Exceptions)))
 	c.Floor("set_ids_checked", int64(len(u.AllLicense)+len(u.Exceptions)))
 	c.Floor("generator_files_compared", 3)
-	c.Floor("generator_variants_run", 4)
+	c.Floor("generator_variants_run", 5)
 	c.Floor("refreshed_library_runs", 1)
 	judgeJSON(c)
 	judgeSets(c)
